@@ -460,7 +460,9 @@ def check_pruning(rep, tier, seed):
             if line.strip() and not line.startswith("#"):
                 f, d = [x.strip() for x in line.split("|")]
                 hard.append((f, int(d)))
-    for f, d in (hard if tier == "thorough" else core.rng(seed, "C09hard").sample(hard, min(len(hard), 16))):
+    races = [x for x in hard if x[0].count("n") + x[0].count("N") >= 10]     # the long capture races always run
+    hard = [x for x in hard if x not in races]
+    for f, d in races + (hard if tier == "thorough" else core.rng(seed, "C09hard").sample(hard, min(len(hard), 16))):
         cases.append(["new " + f, "obs", "ttnew", "search %d -1 1" % d] + ["refroot %d" % k for k in range(1, d + 1)])
     # the family behind that corpus: sparse positions with pawns on their home ranks, some with a man on the square right
     # in front (a double step that must NOT be possible), some free; depth 3 (killer and table moves carry over between
